@@ -166,13 +166,13 @@ func gpermGen(rng *hx.Rng, n int, tier string, w *hx.Writer) {
 		var sc *gScen
 		var tag string
 		switch c := r.Intn(10); {
-		case c < 3:
+		case c < 2:
 			sc, tag = genRandom(r, 6), "random"
-		case c < 6:
+		case c < 4:
 			sc, tag = genCycle(r, 1+r.Intn(4), r.Intn(3)), "cycle"
-		case c < 7:
+		case c < 5:
 			sc, tag = genSelf(r), "self"
-		case c < 8:
+		case c < 8: // narrowing (Primary / unnamed / qualifier preferences) is where the enumeration order could leak into a pick
 			sc, tag = genMatch(r), "match"
 		case c < 9:
 			sc, tag = genSliceCycle(r), "slicecycle"
